@@ -10,6 +10,8 @@ import (
 	"os/exec"
 	"runtime"
 	"strings"
+	"sync"
+	"syscall"
 	"time"
 
 	"seehuhn.de/go/membudget"
@@ -25,19 +27,27 @@ import (
 // unfinished case as replay input; the remaining cases go to a fresh child.
 //
 // case line:   <idx> <kind> <mode> <bound> <bodyhex>
-//   kind  dctA | dct0 | dct1 (ColorTransform absent/0/1) | jbig2
-//   mode  all (read to the end) | early (read a few bytes, then Close) | none (Close at once)
+//   kind  dctA | dct0 | dct1 (ColorTransform absent/0/1) | jbig2 | jbig2+<globals hex>
+//   mode  all (read to the end) | early (read a few bytes, then Close) | none (Close at once);
+//         "all:w<N>": N coefficient-block visits are needed to decode the file completely — data
+//         may only be returned if N <= 4 x (input + output bytes) (work proportional to size)
 //   bound largest admissible decoded size (-1: only the absolute read budget applies)
 // result line: E <idx> <word> <decoded bytes> <goroutines left over> <detail>
 
 func init() {
 	if os.Getenv("VERIF_FB_CHILD") != "" {
+		// a runaway allocation must kill the child, not the machine
+		lim := syscall.Rlimit{Cur: 6 << 30, Max: 6 << 30}
+		syscall.Setrlimit(syscall.RLIMIT_AS, &lim)
 		fbChildMain()
 		os.Exit(0)
 	}
 }
 
 const fbChildReadBudget = 64 << 20
+
+// after this many crashed or hanging cases in one batch the rest of the batch is skipped
+const fbChildMaxFailures = 4
 
 func fbChildFilter(kind string) pdf.Filter {
 	switch kind {
@@ -47,6 +57,9 @@ func fbChildFilter(kind string) pdf.Filter {
 		return pdf.FilterDCT{ColorTransform: pdf.DCTColorTransformYCbCr}
 	case "jbig2":
 		return &pdf.FilterJBIG2{}
+	}
+	if g, ok := strings.CutPrefix(kind, "jbig2+"); ok {
+		return &pdf.FilterJBIG2{Globals: fbHexDecode(g)}
 	}
 	return pdf.FilterDCT{}
 }
@@ -58,6 +71,11 @@ func fbChildCase(kind, mode string, bound int, body []byte) (word string, n int,
 			word, detail = "panic", strings.ReplaceAll(fmt.Sprint(p), "\n", " ")
 		}
 	}()
+	work := -1
+	if m, w, ok := strings.Cut(mode, ":w"); ok {
+		mode, work = m, fbAtoi(w)
+	}
+	cpu0 := fbCPUTime()
 	before := runtime.NumGoroutine()
 	budget := membudget.New(int64(8<<20) + min(int64(1024*len(body)), 256<<20)) // limits.StreamBudget
 	t0 := time.Now()
@@ -107,12 +125,27 @@ func fbChildCase(kind, mode string, bound int, body []byte) (word string, n int,
 		word = "toomuch"
 		detail = fmt.Sprintf("%d bytes decoded, the header admits %d", n, bound)
 	}
-	if time.Since(t0) > 10*time.Second {
+	// work proportional to input plus produced output
+	if work >= 0 && word == "data" && mode == "all" && work > 4*(len(body)+n) {
+		word = "overwork"
+		detail = fmt.Sprintf("accepted after %d coefficient-block visits for %d input + %d output bytes", work, len(body), n)
+	}
+	cpu := fbCPUTime() - cpu0
+	if allowed := 3*time.Second + time.Duration(200*(len(body)+n)); cpu > allowed || time.Since(t0) > 4*allowed {
 		word = "slow"
-		detail = time.Since(t0).String()
+		detail = fmt.Sprintf("%v CPU, %v elapsed for %d input + %d output bytes (allowed %v)", cpu, time.Since(t0), len(body), n, allowed)
 	}
 	detail = strings.ReplaceAll(detail, "\n", " ")
 	return
+}
+
+// fbCPUTime: user + system CPU time of this process (all goroutines).
+func fbCPUTime() time.Duration {
+	var ru syscall.Rusage
+	if syscall.Getrusage(syscall.RUSAGE_SELF, &ru) != nil {
+		return 0
+	}
+	return time.Duration(ru.Utime.Nano() + ru.Stime.Nano())
 }
 
 func fbChildMain() {
@@ -146,7 +179,15 @@ type fbChildResult struct {
 func fbRunInChild(cases []string, perCase time.Duration) []fbChildResult {
 	res := make([]fbChildResult, len(cases))
 	next := 0
+	failures := 0
 	for next < len(cases) {
+		if failures >= fbChildMaxFailures {
+			// the violation is established; do not spend a watchdog period on every further case
+			for i := next; i < len(cases); i++ {
+				res[i] = fbChildResult{word: "skipped"}
+			}
+			return res
+		}
 		cmd := exec.Command(os.Args[0])
 		cmd.Env = append(os.Environ(), "VERIF_FB_CHILD=1", "GOMAXPROCS=4")
 		stdin, _ := cmd.StdinPipe()
@@ -212,6 +253,7 @@ func fbRunInChild(cases []string, perCase time.Duration) []fbChildResult {
 					running = next
 				}
 				res[running] = fbChildResult{word: "hang", crashed: true, detail: fmt.Sprintf("no answer within %v", perCase)}
+				failures++
 			}
 		}
 		err := cmd.Wait()
@@ -227,6 +269,7 @@ func fbRunInChild(cases []string, perCase time.Duration) []fbChildResult {
 					tail = tail[:1500]
 				}
 				res[i] = fbChildResult{word: "crash", crashed: true, detail: fmt.Sprintf("child process died (%v)", err), stderr: tail}
+				failures++
 			}
 			next = i + 1
 		}
@@ -463,9 +506,13 @@ func replayChild(input string) (bool, string) {
 
 func runFBChild(c *Ctx) {
 	r := c.R.Fork()
-	var cases []string
+	var cases, notes []string
+	var family []int // 0 synthetic JPEGs, 1 progressive scan floods, 2 JBIG2: one child batch each
+	note, fam := "", 0
 	add := func(kind, mode string, bound int, body []byte) {
 		cases = append(cases, fmt.Sprintf("%s %s %d %s", kind, mode, bound, hexWire(body)))
+		notes = append(notes, note)
+		family = append(family, fam)
 	}
 	kinds := []string{"dctA", "dctA", "dct0", "dct1"}
 	modes := []string{"all", "all", "all", "early", "none"}
@@ -557,28 +604,107 @@ func runFBChild(c *Ctx) {
 	if c.Thorough {
 		nj = 6000
 	}
+	fam = 2
 	for i := 0; i < nj; i++ {
 		add("jbig2", "all", -1, fbGenJBIG2(r))
 	}
+	note = ""
+	// progressive JPEGs with very many scans
+	fam = 1
+	for _, ps := range fbProgCases(r, c.Thorough) {
+		note = "[progressive " + ps.String() + "]"
+		add("dctA", fmt.Sprintf("all:w%d", ps.work()), ps.w*ps.h, ps.build())
+		c.Stat("prog_jpeg")
+	}
+	// JBIG2 pages from the library's encoder with mutated headers
+	fam = 2
+	seeds, errs := fbJBIG2Seeds()
+	for _, e := range errs {
+		c.Violate("fb-hostile-child", "jbig2-seed", "cannot build a JBIG2 seed page: "+e, "")
+	}
+	nm := 2500
+	if c.Thorough {
+		nm = 40000
+	}
+	for _, sd := range seeds { // the unmutated pages must decode
+		note = "[jbig2 seed " + sd.name + "]"
+		kind := "jbig2"
+		if len(sd.globals) > 0 {
+			kind += "+" + hexWire(sd.globals)
+		}
+		add(kind, "all", -1, fbEmitJSegs(sd.segs))
+	}
+	firstMut := len(cases)
+	for i := 0; i < nm && len(seeds) > 0; i++ {
+		sd := seeds[i%len(seeds)]
+		page, globals, what := fbMutateJBIG2(r, sd)
+		note = "[jbig2 " + what + "]"
+		kind := "jbig2"
+		if len(globals) > 0 {
+			kind += "+" + hexWire(globals)
+		}
+		add(kind, "all", -1, page)
+	}
+	note = ""
 	c.StatN("child_cases", len(cases))
-	res := fbRunInChild(cases, 20*time.Second)
+	res := make([]fbChildResult, len(cases))
+	var wg sync.WaitGroup
+	var ms [3]int
+	for f := 0; f < 3; f++ { // the three families run in three children side by side
+		wg.Add(1)
+		go func(f int) {
+			defer wg.Done()
+			var idx []int
+			var batch []string
+			for i, ff := range family {
+				if ff == f {
+					idx = append(idx, i)
+					batch = append(batch, cases[i])
+				}
+			}
+			t0 := time.Now()
+			for k, rs := range fbRunInChild(batch, 10*time.Second) {
+				res[idx[k]] = rs
+			}
+			ms[f] = int(time.Since(t0).Milliseconds())
+		}(f)
+	}
+	wg.Wait()
+	for f := range ms {
+		c.StatN(fmt.Sprintf("child_family_%d_ms", f), ms[f])
+	}
+	for i := firstMut - len(seeds); i < firstMut; i++ {
+		if i >= 0 && res[i].word != "data" {
+			c.Violate("fb-hostile-child", "jbig2-seed", fmt.Sprintf("the valid seed page does not decode: %s %s %s", res[i].word, res[i].detail, notes[i]), cases[i])
+		}
+	}
 	for i, rs := range res {
 		c.Case("child:"+cases[i], rs.word == "data" || rs.n > 0)
-		c.Stat("child_" + strings.Fields(cases[i])[0] + "_" + rs.word)
+		kindWord, _, _ := strings.Cut(strings.Fields(cases[i])[0], "+")
+		if strings.HasPrefix(notes[i], "[progressive") {
+			kindWord = "prog"
+		}
+		c.Stat("child_" + kindWord + "_" + rs.word)
 		in := cases[i]
 		if len(in) > 20000 {
 			in = in[:20000]
 		}
 		switch rs.word {
-		case "data", "malformed", "budget":
+		case "data", "malformed", "budget", "skipped":
 		case "crash", "hang":
-			c.Violate("fb-hostile-child", "child-"+rs.word, fmt.Sprintf("the decoder took the process down: %s %s", rs.detail, rs.stderr), in)
+			c.Violate("fb-hostile-child", "child-"+rs.word, fmt.Sprintf("the decoder took the process down or did not return: %s %s %s", rs.detail, notes[i], rs.stderr), in)
 		case "panic":
 			c.Violate("fb-hostile-child", "panic", "decoder panicked: "+rs.detail, in)
 		case "toomuch":
-			c.Violate("fb-hostile-child", "unbounded-output", rs.detail, in)
+			c.Violate("fb-hostile-child", "unbounded-output", rs.detail+" "+notes[i], in)
 		case "slow":
-			c.Violate("fb-hostile-child", "slow", rs.detail, in)
+			key := "slow"
+			if fbJBIG2EmptyGrid(cases[i]) {
+				key = "jbig2-halftone-empty-grid"
+			}
+			c.Violate("fb-hostile-child", key, rs.detail+" "+notes[i], in)
+		case "overwork":
+			c.Violate("fb-hostile-child", "work-not-proportional", rs.detail+" "+notes[i], in)
 		case "nochild":
 			c.Violate("fb-hostile-child", "no-child-process", rs.detail, in)
 		default:
@@ -591,6 +717,25 @@ func runFBChild(c *Ctx) {
 			c.Sample(fmt.Sprintf("child case %s -> %s %d bytes", fbTruncStr(cases[i]), rs.word, rs.n))
 		}
 	}
+}
+
+// fbJBIG2EmptyGrid: the page has a halftone region with HGW = 0 and a huge HGH — the known
+// class jbig2-halftone-empty-grid (checkedMul(0, HGH) passes, the row loops run HGH times).
+func fbJBIG2EmptyGrid(caseLine string) bool {
+	f := strings.Fields(caseLine)
+	if len(f) != 4 || !strings.HasPrefix(f[0], "jbig2") {
+		return false
+	}
+	for _, s := range fbParseJSegs(fbHexDecode(f[3])) {
+		if (s.typ == 20 || s.typ == 22 || s.typ == 23) && len(s.data) >= 26 {
+			hgw := binary.BigEndian.Uint32(s.data[18:])
+			hgh := binary.BigEndian.Uint32(s.data[22:])
+			if hgw == 0 && hgh >= 1<<26 {
+				return true
+			}
+		}
+	}
+	return false
 }
 
 func fbTruncStr(s string) string {
